@@ -135,17 +135,20 @@ def run(tier):
     import random
     from .. import extproc
     rnd = random.Random(common.seed() * 7919 + 3)
-    gsrc = [('shipped-zonedbx', compiler.lines_shipped('zonedbx')), ('gen', compiler.gen_source(rnd, 40 if tier == 'quick' else 160))]
+    # (source, start_year, until_year): the compiler is also run with a start year other than the shipped 2000 -- the processors
+    # accept start_year - 1, whose window reaches back into start_year - 2
+    gsrc = [('shipped-zonedbx', compiler.lines_shipped('zonedbx'), 2000, 2050), ('gen', compiler.gen_source(rnd, 40 if tier == 'quick' else 160), 2000, 2050),
+            ('tz2025b-from-2003', compiler.lines_2025b(), 2003, 2030)]
     if tier == 'thorough':
-        gsrc.append(('tz2025b', compiler.lines_2025b()))
+        gsrc += [('tz2025b', compiler.lines_2025b(), 2000, 2050), ('tz2025b-from-2011', compiler.lines_2025b(), 2011, 2038), ('tz2025b-from-1980', compiler.lines_2025b(), 1980, 2000)]
     gzy = 0
     gzones = 0
-    for gname, lines in gsrc:
+    for gname, lines, gy0, gy1 in gsrc:
         gw = os.path.join(work, 'gen-' + gname)
         os.makedirs(gw, exist_ok=True)
         outs = {}
         for scope in ('extended', 'basic'):
-            res, out, err = compiler.run_compiler(lines, gw, scope, flags=('arduino',))
+            res, out, err = compiler.run_compiler(lines, gw, scope, start=gy0, until=gy1, flags=('arduino',))
             if res is None:
                 if gname == 'gen':
                     chk.notes.append('generated source not accepted by the compiler (%s)' % scope)
@@ -159,9 +162,9 @@ def run(tier):
         if exes is None:
             chk.violation('generated:%s:does-not-compile' % gname, 'generated C++ tables do not compile: %s' % err[-1500:], {'source': gname})
             continue
-        for scope, invs in (('extended', ['NoOverflow', 'WithinRecordedSize']), ('basic', ['FitsCache'])):
+        for scope, invs in (('extended', ['NoOverflow', 'WithinRecordedSize', 'Covered']), ('basic', ['FitsCache'])):
             d = extproc.dump_tables(exes['dbdump'], scope)
-            obs = extproc.impl_tables(exes['pairdrv'], len(d['zones']), 1999, 2050, mode=extproc.SPECS[scope][1])
+            obs = extproc.impl_tables(exes['pairdrv'], len(d['zones']), gy0 - 1, gy1, mode=extproc.SPECS[scope][1])
             if sorted(obs) != sorted(outs[scope][0]['emitted_zones']):
                 chk.violation('generated:%s:%s:zones-missing' % (gname, scope), 'generated registry lists %d zones, the compiler emitted %d' % (len(obs), len(outs[scope][0]['emitted_zones'])), {})
             gzones += len(obs)
@@ -178,7 +181,12 @@ def run(tier):
                     dr = [(y, v['dropped']) for y, v in years.items() if v['dropped']]
                     if dr:
                         chk.violation('generated:%s:%s:cache-overflow' % (gname, zn), 'BasicZoneProcessor needed more than 5 cache slots on the generated table (%s)' % dr[:3], {'zone': zn})
-            extproc.check_tables(chk, 'generated:' + gname, d, obs, None, gw, scope=scope, invariants=invs)
+            extproc.check_tables(chk, 'generated:' + gname, d, obs, None, gw, y0=gy0, y1=gy1 - 1, ylast=gy1, scope=scope, invariants=invs)
+            # every accepted year answers (no error value, no crash) at its first and a middle instant
+            if scope == 'extended':
+                bad_years = [(zn, y) for zn, years in sorted(obs.items()) for y, v in sorted(years.items()) if v['filled'] and not v['rows']]
+                for zn, y in bad_years[:6]:
+                    chk.violation('generated:%s:%s:%s:no-transition' % (gname, zn, y), 'generated tables (start year %d): ExtendedZoneProcessor::init(%s) of %s succeeds but holds no transition: every query of that accepted year is an error or dereferences a null transition' % (gy0, y, zn), {'zone': zn, 'year': y})
     chk.sample({'pool_trace': traces[len(traces) // 2]})
     chk.add(states=st + r1.distinct + r3.distinct, transitions=tr + r1.generated + r3.generated,
             traces_validated_against_impl=nscripts + len(traces), model_edges_replayed=nscripts, replayed_calls=nsteps,
